@@ -1108,3 +1108,47 @@ func (c *Ctx) stopsOnError(call *ssa.Call) bool {
 	}
 	return false
 }
+
+// reachedOnlyAfterSuccess: site is reached only when step ran and returned no error, although step does not dominate
+// it - the single-exit style `if err == nil { _, err = step() }; if err == nil { site }`: site is guarded by the nil
+// edge of a merge of error values, and on every way into that merge the value is either step's own error (the step
+// ran) or an error known to be non-nil on that way (so the nil edge is not taken).
+func reachedOnlyAfterSuccess(step ssa.CallInstruction, site ssa.Instruction) bool {
+	call, ok := step.(*ssa.Call)
+	if !ok {
+		return false
+	}
+	errv := errResultOf(call)
+	if errv == nil {
+		return false
+	}
+	for _, ref := range core.Referrers(errv) {
+		ph, isPhi := ref.(*ssa.Phi)
+		if !isPhi || !anyDominates(nilEdges(ph, true), site.Block()) {
+			continue
+		}
+		all := true
+		for i, e := range ph.Edges {
+			pred := ph.Block().Preds[i]
+			if e == errv {
+				if !step.Block().Dominates(pred) {
+					all = false
+				}
+				continue
+			}
+			known := anyDominates(nilEdges(e, false), pred)
+			for _, ne := range nilEdges(e, false) {
+				if ne.from == pred && ne.to() == ph.Block() {
+					known = true
+				}
+			}
+			if !known {
+				all = false
+			}
+		}
+		if all {
+			return true
+		}
+	}
+	return false
+}
